@@ -2,7 +2,7 @@ import ast
 import keyword
 import re
 import unicodedata
-from collections.abc import Mapping, MutableMapping
+from collections.abc import Collection, Mapping, MutableMapping
 from typing import Optional, Union
 
 # Expression formatting
@@ -58,11 +58,26 @@ def sanitize_variable_names(
     # is left as it is.
     sanitized_expr = []
 
-    for index, expr_part in enumerate(UNQUOTED_BACKTICK_MATCHER.split(expr)):
+    expr_parts = UNQUOTED_BACKTICK_MATCHER.split(expr)
+
+    # The words of the code itself (identifiers, and what string literals
+    # contain) cannot serve as new names.
+    reserved = {
+        word
+        for index, expr_part in enumerate(expr_parts)
+        if not (index % 2 == 1 and expr_part.startswith("`"))
+        for word in re.findall(r"\w+", expr_part, re.ASCII)
+    }
+
+    for index, expr_part in enumerate(expr_parts):
         if index % 2 == 1 and expr_part.startswith("`"):
             variable_name = expr_part[1:-1]
             new_name = sanitize_variable_name(
-                variable_name, env, template=template, aliases=aliases
+                variable_name,
+                env,
+                template=template,
+                aliases=aliases,
+                reserved=reserved,
             )
             aliases[new_name] = variable_name
             sanitized_expr.append(f" {new_name} ")
@@ -78,6 +93,7 @@ def sanitize_variable_name(
     *,
     template: str = "{}",
     aliases: Optional[Mapping] = None,
+    reserved: Collection[str] = (),
 ) -> str:
     """
     Generate a valid Python variable name for variable identifier `name`.
@@ -91,6 +107,8 @@ def sanitize_variable_name(
             if you need to undo the sanitization by string replacement.
         aliases: The sanitized names already handed out (mapped back to the
             original names), so that different names never share an alias.
+        reserved: Names that must not be handed out (because the code uses
+            them for something else).
     """
     aliases = {} if aliases is None else aliases
 
@@ -124,6 +142,7 @@ def sanitize_variable_name(
         aliases.get(new_name, name) != name
         or (new_name in env and new_name not in aliases)
         or keyword.iskeyword(new_name)
+        or new_name in reserved
     ):
         suffix += 1
         new_name = template.format(f"{base_name}_{suffix}")
